@@ -1,4 +1,4 @@
-import shim, warnings
+import sktime_compat as shim, warnings
 warnings.filterwarnings("ignore")
 import numpy as np, pandas as pd
 from sktime.forecasting.base import ForecastingHorizon
